@@ -105,7 +105,41 @@ func NewDataSource(name, alias string, options map[string]string) *DataSource {
 
 func (ds *DataSource) Typecheck(ctx context.Context, env physical.Environment, logicalEnv Environment) (physical.Node, map[string]string) {
 	if cte, ok := logicalEnv.CommonTableExpressions[ds.name]; ok {
-		return cte.Node, cte.UniqueVariableMapping
+		// Columns are told apart by their unique names, so every reference to the common table expression gets fresh ones.
+		// Otherwise two references to it in one query (i.e. a self-join) would read each other's columns.
+		userNames := ReverseMapping(cte.UniqueVariableMapping)
+		renamed := make(map[string]string, len(cte.Node.Schema.Fields))
+		fields := make([]physical.SchemaField, len(cte.Node.Schema.Fields))
+		expressions := make([]physical.Expression, len(cte.Node.Schema.Fields))
+		for i, field := range cte.Node.Schema.Fields {
+			name, ok := userNames[field.Name]
+			if !ok {
+				name = field.Name
+			}
+			unique := logicalEnv.GetUnique(name)
+			renamed[field.Name] = unique
+			fields[i] = physical.SchemaField{Name: unique, Type: field.Type}
+			expressions[i] = physical.Expression{
+				Type:           field.Type,
+				ExpressionType: physical.ExpressionTypeVariable,
+				Variable: &physical.Variable{
+					Name:     field.Name,
+					IsLevel0: true,
+				},
+			}
+		}
+		mapping := make(map[string]string, len(cte.UniqueVariableMapping))
+		for name, unique := range cte.UniqueVariableMapping {
+			mapping[name] = renamed[unique]
+		}
+		return physical.Node{
+			Schema:   physical.NewSchema(fields, cte.Node.Schema.TimeField, physical.WithNoRetractions(cte.Node.Schema.NoRetractions)),
+			NodeType: physical.NodeTypeMap,
+			Map: &physical.Map{
+				Source:      cte.Node,
+				Expressions: expressions,
+			},
+		}, mapping
 	}
 
 	if ds.name == "dual" {
